@@ -14,10 +14,12 @@ import TfelVerif.C23.PropsN3_ABAQUS__SPATIAL_MODULI
 import TfelVerif.C23.PropsN3_C_TAU_JAUMANN__DTAU_DF
 import TfelVerif.C23.PropsN3_C_TAU_JAUMANN__SPATIAL_MODULI
 import TfelVerif.C23.PropsN3_C_TRUESDELL__SPATIAL_MODULI
+import TfelVerif.C23.PropsN3_DPK1_DF__DS_DEGL_core
 import TfelVerif.C23.PropsN3_DSIG_DF__DTAU_DF
 import TfelVerif.C23.PropsN3_DTAU_DF__ABAQUS
 import TfelVerif.C23.PropsN3_DTAU_DF__C_TAU_JAUMANN
 import TfelVerif.C23.PropsN3_DTAU_DF__DPK1_DF
+import TfelVerif.C23.PropsN3_DTAU_DF__DS_DF_core
 import TfelVerif.C23.PropsN3_SPATIAL_MODULI__C_TAU_JAUMANN
 import TfelVerif.C23.PropsN3_SPATIAL_MODULI__C_TRUESDELL
 import TfelVerif.C23.PropsN3_SPATIAL_MODULI__DS_DEGL
@@ -156,5 +158,33 @@ theorem N3_DSIG_DF__DPK1_DF (hc : c * c = 2) (h2 : (2:K) ≠ 0)
   unfold Gen.N3_DSIG_DF__DPK1_DF_r
   refine (PropsN3_DSIG_DF__DTAU_DF.N3_DSIG_DF__DTAU_DF c c3 fn hc h2 (hJ := hJ) ..).trans ?_
   exact PropsN3_DTAU_DF__DPK1_DF.N3_DTAU_DF__DPK1_DF c c3 fn hc h2 ..
+
+/-- `DTAU_DF ← DS_DF` (3D): along every variation `δF = L F` the converted operator, applied to the
+rate of its kinematic variable, gives the rate of the Kirchhoff stress that reproduces the same Lie derivative of
+the Kirchhoff stress as the source operator (rate of the second Piola–Kirchhoff stress) does. -/
+theorem N3_DTAU_DF__DS_DF (hc : c * c = 2) (h2 : (2:K) ≠ 0)
+    (D : Nat → Nat → K) (F0 F : M3 K) (L : M3 K) (s : Nat → K) (hJ : F.det ≠ 0) :
+    upper (lamTau F (M3.ofMandel c [s 0, s 1, s 2, s 3, s 4, s 5]) L (M3.ofMandel c (act (Gen.N3_DTAU_DF__DS_DF_r c c3 fn D (tensv F0) (tensv F) s) (M3.tens3 (L * F)))))
+      = upper (lamS F (M3.ofMandel c [s 0, s 1, s 2, s 3, s 4, s 5]) L (M3.ofMandel c (act (rowsOf D i6 i9) (M3.tens3 (L * F))))) := by
+  have A := PropsStress.N3_cauchy_to_pk2 c c3 fn F s hc h2 hJ
+  have T := PropsN3_DTAU_DF__DS_DF_core.N3_DTAU_DF__DS_DF_core c c3 fn hc h2 D F L (vecOf (Gen.N3_cauchy_to_pk2_r c c3 fn s (tensv F)))
+  have e : M3.ofMandel c [vecOf (Gen.N3_cauchy_to_pk2_r c c3 fn s (tensv F)) 0, vecOf (Gen.N3_cauchy_to_pk2_r c c3 fn s (tensv F)) 1, vecOf (Gen.N3_cauchy_to_pk2_r c c3 fn s (tensv F)) 2, vecOf (Gen.N3_cauchy_to_pk2_r c c3 fn s (tensv F)) 3, vecOf (Gen.N3_cauchy_to_pk2_r c c3 fn s (tensv F)) 4, vecOf (Gen.N3_cauchy_to_pk2_r c c3 fn s (tensv F)) 5] = M3.ofMandel c (Gen.N3_cauchy_to_pk2_r c c3 fn s (tensv F)) := rfl
+  rw [e, A] at T
+  unfold Gen.N3_DTAU_DF__DS_DF_r lamTau lamS kirch
+  exact T
+
+/-- `DPK1_DF ← DS_DEGL` (3D): along every variation `δF = L F` the converted operator, applied to the
+rate of its kinematic variable, gives the rate of the first Piola–Kirchhoff stress that reproduces the same Lie derivative of
+the Kirchhoff stress as the source operator (rate of the second Piola–Kirchhoff stress) does. -/
+theorem N3_DPK1_DF__DS_DEGL (hc : c * c = 2) (h2 : (2:K) ≠ 0)
+    (D : Nat → Nat → K) (F0 F : M3 K) (L : M3 K) (s : Nat → K) (hJ : F.det ≠ 0) :
+    M3.tens3 (lamP F (M3.ofMandel c [s 0, s 1, s 2, s 3, s 4, s 5]) L (M3.ofTens (act (Gen.N3_DPK1_DF__DS_DEGL_r c c3 fn D (tensv F0) (tensv F) s) (M3.tens3 (L * F)))))
+      = M3.tens3 (lamS F (M3.ofMandel c [s 0, s 1, s 2, s 3, s 4, s 5]) L (M3.ofMandel c (act (rowsOf D i6 i6) (M3.mandel3 c (dE F L))))) := by
+  have A := PropsStress.N3_cauchy_to_pk2 c c3 fn F s hc h2 hJ
+  have T := PropsN3_DPK1_DF__DS_DEGL_core.N3_DPK1_DF__DS_DEGL_core c c3 fn hc h2 D F L (vecOf (Gen.N3_cauchy_to_pk2_r c c3 fn s (tensv F)))
+  have e : M3.ofMandel c [vecOf (Gen.N3_cauchy_to_pk2_r c c3 fn s (tensv F)) 0, vecOf (Gen.N3_cauchy_to_pk2_r c c3 fn s (tensv F)) 1, vecOf (Gen.N3_cauchy_to_pk2_r c c3 fn s (tensv F)) 2, vecOf (Gen.N3_cauchy_to_pk2_r c c3 fn s (tensv F)) 3, vecOf (Gen.N3_cauchy_to_pk2_r c c3 fn s (tensv F)) 4, vecOf (Gen.N3_cauchy_to_pk2_r c c3 fn s (tensv F)) 5] = M3.ofMandel c (Gen.N3_cauchy_to_pk2_r c c3 fn s (tensv F)) := rfl
+  rw [e, A] at T
+  unfold Gen.N3_DPK1_DF__DS_DEGL_r lamP lamS kirch
+  exact T
 
 end TfelVerif.C23.PropsN3Chains
